@@ -548,6 +548,7 @@ class StorageCommitment(MessageDispatcherSCP):
         :param msg: incoming N-EVENT-REPORT message
         """
         rsp = dimsemessages.NEventReportRSPMessage()
+        rsp.message_id_being_responded_to = msg.message_id
         rsp.sop_class_uid = ctx.sop_class
         rsp.status = int(statuses.SUCCESS)
         rsp.event_type_id = msg.event_type_id
@@ -572,8 +573,7 @@ class StorageCommitment(MessageDispatcherSCP):
             asce.ae.on_commitment_response(transaction_uid, success, failure)
         except exceptions.EventHandlingError:
             rsp.status = int(statuses.PROCESSING_FAILURE)
-        else:
-            asce.send(rsp, ctx.id)
+        asce.send(rsp, ctx.id)
 
     @staticmethod
     def n_action(asce, ctx, msg):
